@@ -122,6 +122,22 @@ def run(ck: Check):
         cases.append(model_load_line(atom, data, sets[0], sets[1]))
         impl.append(line)
 
+    # atoms of files whose line breaks / cut bytes sit on multiples of block sizes (64 KiB, 1 MiB)
+    from boundaries import block_boundary_loads
+
+    def judge(atom, name, data, line, t, out):
+        if t is None:
+            return
+        err = None
+        if atom == "line":
+            err = line_ok(t.parts)
+        elif atom == "char":
+            err = "a char atom is not a single byte" if any(len(p) != 1 for p in t.parts) else None
+        else:
+            err = symbol_ok(t.parts, b"".join(t.parts), b"]}:", b"?=;{[\n")
+        if err:
+            ck.violation(f"[{atom}] {len(data)}-byte file '{name}': {err[:300]}", {"atom": atom, "file": name, "size": len(data)})
+    block_boundary_loads(ck, quick, judge, atoms=("line", "symbol", "char"))
     for data in strings_upto(LINE_ALPHABET[:11] + [b"x"], 3 if quick else 4):
         one("line", data)
         one("char", data)
